@@ -222,6 +222,20 @@ def step (st : St) (line : String) : St × String :=
     match eol?, ee?, (if subs == "-" then some [] else (subs.splitOn ";").mapM parseSub) with
     | some eol, some ee, some subs => (st, hexOrDash (renderTable eol ee subs))
     | _, _, _ => (st, "bad-op")
+  | ["q.tail", ts, eol, w, n] =>
+    let eol? : Option LineEol := if eol == "lf" then some .lf else if eol == "crlf" then some .crlf else if eol == "cr" then some .cr else none
+    let ts? : Option TailStyle := if ts == "normal" then some .plain else if ts == "noeol" then some .noeol
+      else if ts == "blank" then some .blank else if ts == "spaces" then some .spaces else none
+    match ts?, eol?, w.toNat?, n.toNat? with
+    | some ts, some eol, some w, some n =>
+      -- the bytes `C02_find_xref_written` speaks about, whether the file ends with them after an EOL
+      -- byte (its hypotheses), and what the model's `find_xref` returns on the file
+      let t := renderTail ts eol w n
+      let k := st.data.length - t.length
+      let fits := decide (t.length < st.data.length) && st.data.drop k == t &&
+        (match st.data[k - 1]? with | some e => isEol e | none => false) && decide (0 < w) && decide (n < 10 ^ w)
+      (st, s!"{hexOrDash t} {fits}")
+    | _, _, _, _ => (st, "bad-op")
   | ["q.encrows", w, rows] =>
     match csvNat w, (if rows == "-" then some [] else (rows.splitOn ",").mapM parseRow) with
     | some [w1, w2, w3], some rows => (st, hexOrDash (encodeRows w1 w2 w3 rows))
